@@ -307,6 +307,7 @@ func exec(line string) hx.Result {
 	staleHit := map[byte]bool{} // direction -> a stale Close() hit the address of a live connection
 	nStale := 0
 	dupDial := false
+	staleLive := false // a repeated Close() was issued while the address belonged to a live connection
 	rejKinds := map[string]bool{}
 	maxInflight := 0
 
@@ -435,12 +436,19 @@ func exec(line string) hx.Result {
 		case 3:
 			if t.wrapped != nil {
 				// a further Close() of the stale Conn handle of a connection that had been established and closed
+				live := false
 				for _, u := range order {
 					if u != t && u.established && u.dir == t.dir && u.addr() == t.addr() {
-						staleHit[t.dir] = true // the address has reconnected meanwhile: its record belongs to a LIVE connection
+						live = true // the address has reconnected meanwhile: its record belongs to a LIVE connection
 					}
 				}
+				staleLive = staleLive || live
+				i0, o0, _, _, _, _ := ctrl.VerifSnapshotC36()
 				t.wrapped.Close()
+				i1, o1, _, _, _, _ := ctrl.VerifSnapshotC36()
+				if live && (len(i1) < len(i0) || len(o1) < len(o0)) {
+					staleHit[t.dir] = true // ... and this Close() removed it
+				}
 				r = "again"
 				nStale++
 			}
@@ -587,8 +595,8 @@ func exec(line string) hx.Result {
 	if nStale > 0 {
 		kind += "+again"
 	}
-	if staleHit['i'] || staleHit['o'] {
-		kind += "+stalehit"
+	if staleLive {
+		kind += "+stalelive"
 	}
 	if res.Class != "" {
 		kind = "VIOLATED:" + res.Class
